@@ -57,6 +57,13 @@ def gen_base(rng, tier):
     if cls == "uni":
         c = gen_uni_case(rng, tier, min_mods=1, max_pat=4)
         c["cls"] = "uni"
+        if len(c["mods"]) >= 2 and rng.random() < 0.3 and c["mods"][0][0] in c["table_mods"]:
+            # the model's FIRST modality is absent from the table (its all-unknown block sits at that modality's position,
+            # wherever the listing puts it)
+            first = c["mods"][0][0]
+            c["table_mods"] = [t for t in c["table_mods"] if t != first]
+            for pt in c["patients"]:
+                pt["find"].pop(first, None)
         lnls = gen.lnls_of(c["graph"])
         mods = [m[0] for m in c["mods"]]
         c["mode"] = "BN" if (c["graph"]["base"] == 2 and rng.random() < 0.2) else "HMM"
@@ -143,7 +150,7 @@ def gen_tf(rng, case):
         tf["col_seed"] = rng.randrange(1 << 30)
     if case["cls"] == "bi" and rng.random() < 0.5:
         tf["swap"] = True
-    if case["cls"] == "bi" and not tf["swap"] and rng.random() < 0.5:
+    if case["cls"] == "bi" and not tf["swap"] and rng.random() < 0.85:
         tf["contra_rank"] = _ranks(rng, nodes)      # the contralateral side lists the same graph in another order
     return tf
 
@@ -532,7 +539,7 @@ def run(ctx: Ctx, a_ok: bool):
                 "order, side swap}; likelihood / state_dist / risk compared between the two models; non-trivial iff the "
                 "transformation changes the listing, a name or the sides, some finding is recorded and some parameter "
                 "is strictly between 0 and 1")
-    n = 200 if ctx.tier == "quick" else 1500
+    n = 300 if ctx.tier == "quick" else 1500
     pairs = []
     for _ in range(n):
         case = gen_base(ctx.rng, ctx.tier)
